@@ -7,7 +7,7 @@ git checkout -q -- . 2>/dev/null
 git apply seeded_out/patch.diff || { echo "PATCH DOES NOT APPLY"; exit 2; }
 echo "== existing tests WITH patch (demo file moved away): $tests"
 demos=$(git ls-files --others --exclude-standard | grep -v "^seeded_out/" | grep -v "^target" )
-mkdir -p /tmp/vs_demo_stash; for f in $demos; do mkdir -p "/tmp/vs_demo_stash/$(dirname $f)"; mv "$f" "/tmp/vs_demo_stash/$f"; done
+rm -rf /tmp/vs_demo_stash; mkdir -p /tmp/vs_demo_stash; for f in $demos; do mkdir -p "/tmp/vs_demo_stash/$(dirname $f)"; mv "$f" "/tmp/vs_demo_stash/$f"; done
 sh -c "$tests" > /tmp/vs_tests.log 2>&1; rc_t=$?
 for f in $demos; do mv "/tmp/vs_demo_stash/$f" "$f"; done
 grep -E "^test result|FAILED|^error" /tmp/vs_tests.log | sort | uniq -c | sort -rn | head -8
